@@ -27,7 +27,11 @@ def run_tlc(module):
         shutil.copy(os.path.join(TLA_DIR, module + ext), work)
     dot = os.path.join(work, "graph.dot")
     cmd = ["tlc", "-workers", "1", "-noGenerateSpecTE", "-metadir", os.path.join(work, "meta"), "-deadlock", "-dump", "dot,actionlabels", dot, module]
-    p = subprocess.run(cmd, cwd=work, capture_output=True, text=True, timeout=1800)
+    # TLC creates a tlc-<n> directory under java.io.tmpdir on every run: keep it inside the scratch directory
+    jtmp = os.path.join(work, "jtmp")
+    os.makedirs(jtmp, exist_ok=True)
+    env = dict(os.environ, JAVA_TOOL_OPTIONS=(os.environ.get("JAVA_TOOL_OPTIONS", "") + f" -Djava.io.tmpdir={jtmp}").strip())
+    p = subprocess.run(cmd, cwd=work, capture_output=True, text=True, timeout=1800, env=env)
     out = p.stdout + p.stderr
     if "No error has been found" not in out:
         raise loader.HarnessError(f"TLC did not verify {module}: {out[-1500:]}")
